@@ -157,7 +157,7 @@ def cond_case(kind, what, Dx, Dy, Rc, Rx, N=2, semi=(), timeout=600):
             return conditional.ConditionalGaussianPDF(M=M, b=jnp.zeros((Rr, Dy)), Sigma=c.obj.Sigma)
         if kind == "nncontrol":
             M, bb = c.obj.get_M_b(A["c_u"])
-            return conditional.ConditionalGaussianPDF(M=M, b=bb, Sigma=c.obj.Sigma)
+            return conditional.ConditionalGaussianPDF(M=M, b=bb, Sigma=jnp.tile(c.obj.Sigma, (M.shape[0], 1, 1)))
         raise ValueError(kind)
 
     def fn(**A):
@@ -225,7 +225,7 @@ def cases(tier, seed=0):
         for (Dx, Dy) in dims:
             for what in ("cond_x", "set_y", "joint", "marginal", "conditional", "info", "logcond"):
                 for (Rc, Rx) in batches:
-                    if kind == "nncontrol" and Rc > 1:
+                    if kind == "nncontrol" and Rc > 2:
                         continue
                     if what in ("logcond",) and (Rc, Rx) != (1, 1):
                         continue     # documented refusal: only implemented for R=1
@@ -236,7 +236,7 @@ def cases(tier, seed=0):
         if tier == "thorough" and not ident:
             for what in ("joint", "marginal", "conditional", "info"):
                 for (Rc, Rx) in batches:
-                    if kind == "nncontrol" and Rc > 1:
+                    if kind == "nncontrol" and Rc > 2:
                         continue
                     out.append(cond_case(kind, what, 2, 2, Rc, Rx, semi=("Sx", "Sy"), timeout=1800))
     for kind in ("diag", "identity", "identitydiag", "nncontrol"):
